@@ -77,6 +77,9 @@ struct GenOpts {
   bool fixedTallOnly = false;
   int rowOrientPattern = -1;  // -1 random
   bool positiveArea = true;   // movable cells have positive width/height
+  int minMultiRows = 2;     // smallest number of rows of a multi-row cell
+  bool narrowRows = false;  // rows as narrow as the domain of global placement allows (a little more than 4 row heights)
+  bool allTurned = false;  // every cell without polarity (fixed ones included) gets a turned orientation
   bool staggered = false;  // 2-3 regions side by side whose row grids have different y origins (row y ranges overlap partially)
   bool comb = false;  // a few wide row levels cut into 66..110 segments each by narrow fixed straps
   bool bigFixed = false;  // fixed macros up to half of the row area in each direction: whole density bins are blocked
@@ -256,6 +259,7 @@ inline Circuit genCircuit(Rng &rng, const GenOpts &o) {
   int Wu = (int)rng.range(6, 60);  // width in units of scale
   if (o.minCells >= 30) Wu = (int)rng.range(40, 160);
   if (o.minRowWidth4H) Wu = std::max<long long>(Wu, 4LL * (H / sc + 1) + 6 + 8);
+  if (o.narrowRows) Wu = (int)(4LL * (H / sc + 1) + 6 + 8);
   int W = (int)(Wu * sc);
   int x0 = (int)(rng.range(-20, 20) * sc);
   int y0 = (int)(rng.range(-20, 20) * scy);
@@ -329,10 +333,10 @@ inline Circuit genCircuit(Rng &rng, const GenOpts &o) {
       cx.push_back((int)(x0 + rng.range(-5, Wu + 2) * sc));
       cy.push_back((int)(y0 + rng.range(-3 * Hu, (yTop - y0) / scy + 2) * scy));
       pol.push_back(rng.chance(0.8) ? CellRowPolarity::ANY : rng.pick(std::vector<CellRowPolarity>{CellRowPolarity::SAME, CellRowPolarity::NW, CellRowPolarity::SE, CellRowPolarity::OPPOSITE}));
-      ori.push_back(ALL8[rng.range(0, 7)]);
+      ori.push_back(o.allTurned ? ALL8[(int)rng.pick(std::vector<int>{2, 3, 6, 7})] : ALL8[rng.range(0, 7)]);
     } else {
       int nr = 1;
-      if (o.multiRow && rng.chance(o.multiRowProb) && !(o.feasiblePolarity && nRowsY < 2)) nr = (int)rng.range(2, std::min(4, std::max(2, nRowsY)));
+      if (o.multiRow && rng.chance(o.multiRowProb) && !(o.feasiblePolarity && nRowsY < 2)) nr = (int)rng.range(std::min(o.minMultiRows, std::max(2, nRowsY)), std::max(std::min(o.minMultiRows, std::max(2, nRowsY)), std::min(4, std::max(2, nRowsY))));
       int cw = (int)(rng.range(1, std::max(1, Wu / 4)) * sc);
       if (rng.chance(0.1)) cw = (int)(rng.range(1, std::max(1, Wu / 2)) * sc);
       if (o.widthMax > 0) cw = (int)(rng.range(1, o.widthMax) * sc);
@@ -359,6 +363,7 @@ inline Circuit genCircuit(Rng &rng, const GenOpts &o) {
       int sw = cw, sh = ch;  // stored (unrotated) size
       if (p == CellRowPolarity::ANY) {
         oo = o.turned ? ALL8[rng.range(0, 7)] : UNTURNED4[rng.range(0, 3)];
+        if (o.allTurned) oo = ALL8[(int)rng.pick(std::vector<int>{2, 3, 6, 7})];
         if (turnedO(oo)) std::swap(sw, sh);
       } else {
         oo = UNTURNED4[rng.range(0, 3)];
@@ -866,6 +871,10 @@ inline GenOpts makeProfile(Rng &rng, const std::string &name) {
     o.utilLo = 0.85; o.utilHi = 1.1; o.maxCells = 60;
   } else if (name == "obstruction") {
     o.maxFixed = 6; o.obstructionProb = 0.95;
+  } else if (name == "allturned") {
+    // only turned cells, most of them several rows high once placed: the stored heights are the placed widths
+    o.turned = true; o.allTurned = true; o.polarity = false; o.multiRowProb = rng.chance(0.5) ? 1.0 : 0.6; o.maxRows = 12; o.maxFixed = 1;
+    if (rng.chance(0.4)) { o.multiRowProb = 1.0; o.minMultiRows = (int)rng.range(3, 4); o.narrowRows = true; o.maxCells = std::min(o.maxCells, 12); }
   } else if (name == "staggered") {
     o.staggered = true; o.turned = false; o.polarityProb = 0.2; o.maxNets = 25; o.maxCells = 40; o.multiRowProb = 0.1; o.utilHi = 0.8;
   } else if (name == "comb") {
